@@ -3,7 +3,7 @@
 
    Strings are lists of non-NUL bytes.  The search for the next ${...} reference, which is where the C code indexes ahead
    of its cursor ( *(s+1), *(e+1) ), is modelled at buffer level: the value including its terminator is a list, every read
-   goes through [rd] and a read outside the buffer is [Crash].  Line splitting, qstrtrim, _q_makeword and the table are at
+   goes through [rd] and a read where the buffer has ended is [Crash].  Line splitting, qstrtrim, _q_makeword and the table are at
    string level (they work on private copies made with strdup; qstrtrim and _q_makeword are the models of EncModel.v).
 
    getenv is the section variable [env]; the output of an external command (${!cmd}) is the section variable [cmd]
@@ -33,28 +33,29 @@ Fixpoint lookup_last (t : tbl) (name : list N) : option (list N) :=
                    end
   end.
 
-(* ---- buffer level: find the closing bracket.  e runs from s+2; opened is the bracket counter (>= 1) ---- *)
-Inductive eres := EClose (e : nat) | EInner (e : nat) | EEnd.
-Fixpoint scan_e (fuel : nat) (buf : list N) (e : nat) (opened : nat) : res eres :=
+(* ---- buffer level.  The cursor into the value buffer is a pair (suffix of the buffer from the cursor on, index); the C
+   code's reads *p and *(p+1) are [rd suf 0] and [rd suf 1]: reading where the buffer has ended is [Crash].  (Indexing the whole
+   buffer by position for every read would make the extracted model quadratic in the value length.)
+   scan_e: find the closing bracket; e runs from s+2; opened is the bracket counter (>= 1). ---- *)
+Inductive eres := EClose (e : nat) (at_e : list N) | EInner (e : nat) (at_e : list N) | EEnd.
+Fixpoint scan_e (fuel : nat) (suf : list N) (e : nat) (opened : nat) : res eres :=
   match fuel with
   | O => Fuel
   | S f =>
-    bind (rd buf e) (fun c =>
+    bind (rd suf 0) (fun c =>
       if c =? 0 then Ok EEnd else
       if c =? QCONF_VAR then
-        bind (rd buf (S e)) (fun d =>
-          if d =? QCONF_VAR_OPEN then Ok (EInner e)          (* internal ${ : s = e - 1; break *)
-          else scan_e f buf (S e) opened)
-      else if c =? QCONF_VAR_OPEN then scan_e f buf (S e) (S opened)
+        bind (rd suf 1) (fun d =>
+          if d =? QCONF_VAR_OPEN then Ok (EInner e suf)       (* internal ${ : s = e - 1; break *)
+          else scan_e f (tl suf) (S e) opened)
+      else if c =? QCONF_VAR_OPEN then scan_e f (tl suf) (S e) (S opened)
       else if c =? QCONF_VAR_CLOSE then
         match opened with
-        | S (S o) => scan_e f buf (S e) (S o)
-        | _ => Ok (EClose e)                                  (* openedbrakets == 0 *)
+        | S (S o) => scan_e f (tl suf) (S e) (S o)
+        | _ => Ok (EClose e suf)                               (* openedbrakets == 0 *)
         end
-      else scan_e f buf (S e) opened)
+      else scan_e f (tl suf) (S e) opened)
   end.
-
-Definition sub (buf : list N) (a n : nat) : list N := firstn n (skipn a buf).
 
 Section Ini.
 Variable env : list N -> option (list N).
@@ -74,23 +75,23 @@ Definition resolve (t : tbl) (v : list N) : option (list N) :=
 
 (* the for (s = value; *s; s++) loop of one round.  Result: None = nothing (more) to substitute,
    Some (s, e, new) = "${" at s, matching "}" at e, replacement text new *)
-Fixpoint find_buf (fuel fuel0 : nat) (t : tbl) (buf : list N) (s : nat) : res (option (nat * nat * list N)) :=
+Fixpoint find_buf (fuel fuel0 : nat) (t : tbl) (suf : list N) (s : nat) : res (option (nat * nat * list N)) :=
   match fuel with
   | O => Fuel
   | S f =>
-    bind (rd buf s) (fun c =>
+    bind (rd suf 0) (fun c =>
       if c =? 0 then Ok None else
-      if negb (c =? QCONF_VAR) then find_buf f fuel0 t buf (S s) else
-      bind (rd buf (S s)) (fun d =>
-        if negb (d =? QCONF_VAR_OPEN) then find_buf f fuel0 t buf (S s) else
-        bind (scan_e fuel0 buf (S (S s)) 1) (fun r =>
+      if negb (c =? QCONF_VAR) then find_buf f fuel0 t (tl suf) (S s) else
+      bind (rd suf 1) (fun d =>
+        if negb (d =? QCONF_VAR_OPEN) then find_buf f fuel0 t (tl suf) (S s) else
+        bind (scan_e fuel0 (tl (tl suf)) (S (S s)) 1) (fun r =>
           match r with
           | EEnd => Ok None                                    (* braket mismatch *)
-          | EInner e => find_buf f fuel0 t buf e               (* s = e - 1; continue *)
-          | EClose e =>
-              match resolve t (sub buf (S (S s)) (e - s - 2)) with
+          | EInner e at_e => find_buf f fuel0 t at_e e         (* s = e - 1; continue *)
+          | EClose e at_e =>
+              match resolve t (firstn (e - s - 2) (tl (tl suf))) with   (* varstr: the text between ${ and } *)
               | Some new => Ok (Some (s, e, new))
-              | None => find_buf f fuel0 t buf (S e)           (* not found: s = e; continue *)
+              | None => find_buf f fuel0 t (tl at_e) (S e)     (* not found: s = e; continue *)
               end
           end)))
   end.
